@@ -4,9 +4,9 @@ tables, symbolic semantics as in Model/C13.lean.  The dictionaries `reset` walks
 generated `resetWalksMRO`; a class name prefixed `sub:` is a user subclass that adds nothing.
 
 ops (first token `C14` already stripped):
-  retarget <Class> <cfg> <pre> <post>            set_input(new input) after the reads `pre`
+  retarget <Class> <cfg> <pre> <post> [kind]     set_input(new input) after the reads `pre` (kind of new input: label only)
   reparam  <Class> <cfg> <pre> <slots> <post>    reset(); assign new values to `slots`
-  slice    <Class> <cfg> <pre>                   `Epochs.__getitem__` after the reads `pre`, then read every getter
+  slice    <Class> <cfg> <pre> [key]             `Epochs.__getitem__` after the reads `pre`, then read every getter
 answer: surv=<getters still stored after the switch>|<g>:s=<1 equal to a newly built object for every F / 0 / r>|…
 -/
 import Nitime.Model.C13
@@ -47,12 +47,22 @@ def handle (args : List String) : String :=
     | some sp, some cfg, some pre, some post => switch sp cfg pre [] post "x1" sp.refreshed
     | none, _, _, _ => "unknown-class"
     | _, _, _, _ => "bad-op"
+  | ["retarget", cls, cfg, pre, post, _kindOfNewInput] =>
+    match findSpec? cls, parseNatList? cfg, parseNatList? pre, parseNatList? post with
+    | some sp, some cfg, some pre, some post => switch sp cfg pre [] post "x1" sp.refreshed
+    | none, _, _, _ => "unknown-class"
+    | _, _, _, _ => "bad-op"
   | ["reparam", cls, cfg, pre, slots, post] =>
     match findSpec? cls, parseNatList? cfg, parseNatList? pre, parseNatList? slots, parseNatList? post with
     | some sp, some cfg, some pre, some slots, some post => switch sp cfg pre slots post "x" []
     | none, _, _, _, _ => "unknown-class"
     | _, _, _, _, _ => "bad-op"
-  | ["slice", cls, cfg, pre] =>
+  | ["slice", cls, cfg, pre, _key] =>
+    handleSlice cls cfg pre
+  | ["slice", cls, cfg, pre] => handleSlice cls cfg pre
+  | _ => "bad-op"
+where
+  handleSlice (cls cfg pre : String) : String :=
     match findSpec? cls, parseNatList? cfg, parseNatList? pre with
     | some sp, some cfg, some pre =>
       let dataSlots := (List.range sp.slotNames.length).filter fun p =>
@@ -62,6 +72,5 @@ def handle (args : List String) : String :=
       switch sp cfg pre dataSlots (List.range sp.getters.length) "x" []
     | none, _, _ => "unknown-class"
     | _, _, _ => "bad-op"
-  | _ => "bad-op"
 
 end Nitime.C14
